@@ -293,6 +293,20 @@ func runC02(t *testing.T, e *worlds.Env, tier string) (bool, any) {
 			if m == model2 {
 				clm = cl2
 			}
+			// wave 13: while nothing but matching has touched the connection, everything the server has
+			// taken off the socket is in the matching buffer the matchers see at their next evaluation
+			// (a prefetch that succeeds is always followed by one): bytes pulled but never shown were dropped
+			if len(h) > 0 && len(m.HandlerCalls) == 0 && clm != nil && clm.End != nil {
+				pulled, seen := clm.End.Peer().Snapshot().BytesRead, 0
+				for _, ev := range h {
+					if ev.BufLen > seen {
+						seen = ev.BufLen
+					}
+				}
+				if pulled > seen {
+					e.S.Fail("C02/prefetched-unseen", "routing", "conn %d: the server read %d bytes from the client while matching, but the largest matching buffer any matcher was shown held %d: bytes that had arrived were dropped before the routes could be decided on them (no handler ran)", m.ID, pulled, seen)
+				}
+			}
 			if len(h) == 0 && len(m.HandlerCalls) == 0 && clm != nil && clm.End != nil && !m.Aborted && clm.Plan.End != worlds.EndAbort && clm.Plan.End != worlds.EndClose {
 				for i := range spec.Routes {
 					v := specRoute(&spec.Routes[i], nil)
